@@ -119,7 +119,9 @@ def build(P):
         valid = [b"INTEGER 5", b"REAL 2.5", b"BOOLEAN TRUE", b"CHAR x", b"STRING 3 abc", b"DATE 1 2 2003", b"ENUM Col 1", b"COMPOSITE Rc INTEGER 4", b"ARRAY 3 INTEGER 1 INTEGER 2 INTEGER 3"]
         targets = [("DECLARE v : INTEGER", "v"), ("DECLARE v : REAL", "v"), ("DECLARE v : BOOLEAN", "v"), ("DECLARE v : CHAR", "v"), ("DECLARE v : STRING", "v"), ("DECLARE v : DATE", "v"),
                    ("TYPE Col = (Red, Green)\nDECLARE v : Col", "v"), ("TYPE Rc\nDECLARE fld : INTEGER\nENDTYPE\nDECLARE v : Rc", "v"), ("DECLARE v : ARRAY[1:3] OF INTEGER", "v")]
-        corrupt = [b"STRING abc", b"STRING 999999999999999 x", b"STRING -1 x", b"STRING 5 ab", b"STRING", b"STRING 3", b"DATE 300 300 99999", b"DATE 31 2 2020", b"DATE 1 1", b"DATE -1 1 2000",
+        corrupt = [b"STRING 99999999999999999999 x", b"STRING 18446744073709551616 x", b"STRING 18446744073709551615 x", b"STRING 1234567890123456789 x", b"STRING 0000000000000000000000003 abc",
+                   b"ARRAY 99999999999999999999 INTEGER 1", b"ENUM Col 99999999999999999999", b"DATE 99999999999999999999 1 2000", b"DATE 1 1 99999999999999999999", b"INTEGER -99999999999999999999", b"REAL 1e99999999999999999999",
+                   b"STRING abc", b"STRING 999999999999999 x", b"STRING -1 x", b"STRING 5 ab", b"STRING", b"STRING 3", b"DATE 300 300 99999", b"DATE 31 2 2020", b"DATE 1 1", b"DATE -1 1 2000",
                    b"INTEGER 99999999999999999999", b"INTEGER x", b"INTEGER", b"REAL 1e999", b"REAL x", b"BOOLEAN MAYBE", b"CHAR", b"CHAR ", b"ENUM Col 7", b"ENUM Nope 0", b"ENUM Col -1",
                    b"COMPOSITE Rc", b"COMPOSITE Nope INTEGER 1", b"COMPOSITE Rc STRING 1 a", b"ARRAY 2 INTEGER 1 INTEGER 2", b"ARRAY 3 INTEGER 1", b"ARRAY 18446744073709551615 INTEGER 1", b"ARRAY -1",
                    b"#", b"##\n#", b"\x00\xff\xfe", b" ", b"\n\n\n", b"INTEGER 5\n#cont\n#cont2", b"#lead\nINTEGER 5"]
@@ -306,7 +308,7 @@ def build(P):
                     body_of = {}
                     for d in range(depth, 0, -1):
                         L.append("PROCEDURE %s%s" % (names[d - 1], "(pv : INTEGER)" if i % 2 == 1 else ""))
-                        for _ in range(r.randint(0, 2)): L.append("OUTPUT \"in %s\"" % names[d - 1])
+                        for _ in range(r.randint(0, 2)): L.append(r.choice(["OUTPUT \"in %s\"" % names[d - 1], "OUTPUT \"a\\nb\\tc\"", "ch <- '\\n'", "OUTPUT \"q\\\"q\""]))
                         if d == depth:
                             for fl in flines[:-1]: L.append(fl)
                             L.append(flines[-1]); fault_line = len(L)
@@ -315,7 +317,7 @@ def build(P):
                         L.append("OUTPUT \"not reached\"")
                         L.append("ENDPROCEDURE")
                         for _ in range(r.randint(0, 2)): L.append(r.choice(["", "// c"]))
-                    for _ in range(r.randint(0, 3)): L.append("OUTPUT \"main\"")
+                    for _ in range(r.randint(0, 3)): L.append(r.choice(["OUTPUT \"main\"", "OUTPUT \"x\\ny\\n\"", "OUTPUT '\\n'"]))
                     if depth == 0:
                         for fl in flines[:-1]: L.append(fl)
                         L.append(flines[-1]); fault_line = len(L)
@@ -331,7 +333,7 @@ def build(P):
             yield ("runtime-faults", ch)
         shapes = [("x.\nOUTPUT 1", 1), ("OUTPUT \"a\"\nx <- (1 +\nOUTPUT 2", 2), ("OUTPUT 1\nIF TRUE THEN\nOUTPUT 2", None), ("OUTPUT 1\nOUTPUT \"unterminated", None), ("OUTPUT 1\nx <- 1 == 2", 2),
                   ("OUTPUT 1\nx <- 'ab'", 2), ("OUTPUT 1\n$", 2), ("OUTPUT 1\nOUTPUT(2)", 2), ("OUTPUT 1\nNEXT", 2), ("OUTPUT 1\nFOR i <- 1 TO 2\nNEXT j", 3), ("OUTPUT 1\nx <- 99999999999999999999", 2),
-                  ("OUTPUT 1\nPROCEDURE P\nPROCEDURE Q\nENDPROCEDURE\nENDPROCEDURE", 3), ("OUTPUT 1\nCASE OF 5\nENDCASE", 2), ("OUTPUT 1\nTYPE T = 5", 2), ("OUTPUT 1\nDECLARE : INTEGER", 2)]
+                  ("OUTPUT 1\nPROCEDURE P\nPROCEDURE Q\nENDPROCEDURE\nENDPROCEDURE", 3), ("OUTPUT \"a\\nb\\nc\"\nx <- '\\n'\ny <- )", 3), ("s <- \"\\n\\n\"\nOUTPUT s\nIF THEN", 3), ("OUTPUT 1\nCASE OF 5\nENDCASE", 2), ("OUTPUT 1\nTYPE T = 5", 2), ("OUTPUT 1\nDECLARE : INTEGER", 2)]
         yield ("syntax-shapes", [Case(id="C11-shape-%d" % i, prog=(s + "\n").encode(), meta=dict(kind="syntax", line=ln, nlines=s.count("\n") + 1, shape=True)) for i, (s, ln) in enumerate(shapes)])
 
     def c11_oracle(c, r, m):
